@@ -401,8 +401,9 @@ inductive Expiry where
   | text (s : Str)
   deriving Repr, DecidableEq
 
+/-- a `Message`; the defaults are those of `Message.__init__` (empty body, persistent, not mandatory) -/
 structure Msg where
-  body : Str
+  body : Str := []
   properties : Dict            -- application properties (carries the subject)
   contentType : Json := .null
   contentEncoding : Json := .null
